@@ -38,7 +38,12 @@ def child_env(tier, seed):
     return env
 
 
+STOP = {"flag": False}      # seed runs only (VERIF_STOP_AT_FIRST=1): set once a replayed violation exists, the conditions not yet started are skipped
+
+
 def run_worker(modname, cond, tier, seed):
+    if STOP["flag"]:
+        return {"cond": cond["name"], "verdict": "unknown", "message": "skipped: VERIF_STOP_AT_FIRST and a replayed violation was already found", "paths": None, "args": None, "wall_total_s": 0}
     modname = cond.get("module", modname)
     timeout = cond["timeout"]
     wall = timeout * 1.6 + 45
@@ -147,6 +152,11 @@ def main():
         for fut in concurrent.futures.as_completed(futs):
             k = futs[fut]
             results[k] = fut.result()
+            if os.environ.get("VERIF_STOP_AT_FIRST") and not STOP["flag"] and results[k].get("verdict") == "refuted" and results[k].get("args") is not None \
+                    and conds[k].get("expect", "hold") == "hold" and not conds[k].get("selftest"):
+                ok, _ = run_replay(conds[k].get("module", modname), conds[k]["name"], results[k]["args"], tier, seed)
+                if ok:
+                    STOP["flag"] = True
 
     violations, engine_errors, lines = [], [], []
     n_conf = n_inc = n_wit = 0
